@@ -545,6 +545,8 @@ class Point:
             if r is not None:
                 return (int(bool(r)), 0)
         # decide the comparison with the Legendre character as the sign of (a - b)
+        if not hasattr(self, 'free_masks'): self.free_masks = set()
+        self.free_masks.add(x.uid)
         a = memo_get(self, x.args[0]); b = memo_get(self, x.args[1])
         if x.val in ('==', '!='):
             same_ = (a[0] - b[0]) % P == 0 and (a[1] - b[1]) % P == 0          # equality is defined for complex values too
@@ -777,7 +779,44 @@ class Decider:
         vals = [v for v in self.values(e) if v is not None]
         if not vals:
             raise AnalysisError('expression has a pole at every sample point: ' + show(e)[:200])
-        return all(v == (0, 0) for v in vals)
+        if not all(v == (0, 0) for v in vals):
+            return False
+        # comparisons that nobody decides are sampled as pseudo-random signs: an identity that fails only on some arms needs more points to be seen; draw 8 more per free mask (at most 40)
+        m = self._free_masks(e)
+        if m:
+            want = min(40, len(vals) + 8 * m); tries = 0
+            while len(vals) < want and tries < 4 * want:
+                tries += 1
+                pt = self.extra_point()
+                if pt is None: continue
+                try:
+                    v = pt.ev(e)
+                except Resample:
+                    continue
+                if v != (0, 0):
+                    return False
+                vals.append(v)
+        return True
+
+    def _free_masks(self, e):
+        """number of distinct comparison nodes in e that no mask hook decides (they are sampled through the Legendre character)"""
+        cache = self.__dict__.setdefault('_mask_count_cache', {})
+        if e.uid in cache: return cache[e.uid]
+        seen = set(); stack = [e]; n = 0
+        while stack:
+            x = stack.pop()
+            if x.uid in seen: continue
+            seen.add(x.uid)
+            if x.op == 'cmp':
+                decided = None
+                if self._mask_hook is not None:
+                    try: decided = self._mask_hook(x, None)
+                    except Exception: decided = None
+                if decided is None: n += 1
+            stack.extend(x.args)
+            if len(seen) > 20000: break
+        cache[e.uid] = n
+        return n
 
     def equal(self, a, b):
         return self.is_zero(add(lift(a), neg(lift(b))))
